@@ -291,7 +291,10 @@ class Wrapped(DataMachine):
 
 # ---- repeatability of whole commands --------------------------------------------------------------
 REPEAT_CMDS = [
-    ["-m", "mae", "-type", "csv"], ["-m", "ets", "-r", "1,2", "-type", "csv"], ["-m", "bs", "-r", "2", "-type", "csv"],
+    # a command with a non-default aggregator / bin type runs BEFORE the plain command for the same metric: in one process the plain
+    # command must print what a fresh process prints (no option may stick to a metric, field or module between commands)
+    ["-m", "mae", "-agg", "max", "-type", "csv"], ["-m", "mae", "-type", "csv"],
+    ["-m", "ets", "-r", "1,2", "-b", "below", "-type", "csv"], ["-m", "ets", "-r", "1,2", "-type", "csv"], ["-m", "bs", "-r", "2", "-type", "csv"],
     ["-m", "pithistdev", "-type", "csv", "-x", "no"], ["-m", "corr", "-x", "location", "-type", "text"],
     ["-m", "obsfcst", "-type", "csv"], ["-m", "rmse", "-x", "time", "-type", "csv"],
     ["-m", "quantilescore", "-q", "0.5", "-type", "csv"], ["-m", "mae", "-type", "csv", "-T", "24"],
@@ -310,7 +313,7 @@ def sub_repeat(tier):
     x0in.x0 = 0.0
     x0in.name = "X0.txt"
     x0path = datasets.write_text([x0in], "c18-rep")[0]
-    rc = REPEAT_CMDS if tier == "thorough" else REPEAT_CMDS[:5]
+    rc = REPEAT_CMDS if tier == "thorough" else REPEAT_CMDS[:7]
     cmds = [paths + c for c in rc] + [[x0path, "-m", "pit", "-type", "csv"], [x0path, "-m", "pithistdev", "-x", "no", "-type", "csv"]]
     outs = set()
     from multiprocessing.pool import ThreadPool
